@@ -172,6 +172,38 @@ Proof.
     + intros y _. rewrite map_length, seq_length. reflexivity.
 Qed.
 
+(* ---- the reducedness certificate --------------------------------------------------------------------------- *)
+Lemma pair_reduced_min Gm i j u : pair_reducedb Gm i j = true -> Gm j j <= pair_len Gm i j u.
+Proof.
+  unfold pair_reducedb, pair_len. intro H. apply Z.leb_le in H.
+  assert (H1 : - Gm i i <= 2 * Gm i j <= Gm i i) by lia.
+  assert (H0 : 0 <= Gm i i) by lia.
+  destruct (Z.lt_trichotomy u 0) as [Hu|[Hu|Hu]].
+  - assert (0 <= (- u) * ((- u - 1) * Gm i i) + (- u) * (Gm i i + 2 * Gm i j)) by (apply Z.add_nonneg_nonneg; apply Z.mul_nonneg_nonneg; try apply Z.mul_nonneg_nonneg; lia).
+    replace (Gm j j - 2 * u * Gm i j + u * u * Gm i i)
+      with (Gm j j + ((- u) * ((- u - 1) * Gm i i) + (- u) * (Gm i i + 2 * Gm i j))) by ring. lia.
+  - subst u. lia.
+  - assert (0 <= u * ((u - 1) * Gm i i) + u * (Gm i i - 2 * Gm i j)) by (apply Z.add_nonneg_nonneg; apply Z.mul_nonneg_nonneg; try apply Z.mul_nonneg_nonneg; lia).
+    replace (Gm j j - 2 * u * Gm i j + u * u * Gm i i)
+      with (Gm j j + (u * ((u - 1) * Gm i i) + u * (Gm i i - 2 * Gm i j))) by ring. lia.
+Qed.
+
+(* certificate true => the cell is sorted by length and no pair reduction a_j - u a_i (any integer u, i < j) shortens a vector:
+   minlattice() has nothing left to do *)
+Theorem reducedb_sound d Gm : reducedb d Gm = true ->
+  (forall i j, (i < j)%nat -> (j < d)%nat -> Gm i i <= Gm j j /\ forall u, Gm j j <= pair_len Gm i j u).
+Proof.
+  intros H i j Hij Hj. destruct d as [|[|[|[|d]]]]; try discriminate; cbn [reducedb] in H.
+  - apply andb_true_iff in H; destruct H as [H H3]. apply andb_true_iff in H; destruct H as [H1 H2].
+    assert (i = 0%nat) by lia. assert (j = 1%nat) by lia. subst. apply Z.leb_le in H2.
+    split; [exact H2 | intro u; apply pair_reduced_min; exact H3].
+  - apply andb_true_iff in H; destruct H as [H P12]. apply andb_true_iff in H; destruct H as [H P02].
+    apply andb_true_iff in H; destruct H as [H P01]. apply andb_true_iff in H; destruct H as [H S12].
+    apply andb_true_iff in H; destruct H as [_ S01]. apply Z.leb_le in S01. apply Z.leb_le in S12.
+    assert (C : (i = 0%nat /\ j = 1%nat) \/ (i = 0%nat /\ j = 2%nat) \/ (i = 1%nat /\ j = 2%nat)) by lia.
+    destruct C as [[? ?]|[[? ?]|[? ?]]]; subst; (split; [lia | intro u; apply pair_reduced_min; assumption]).
+Qed.
+
 (* ---- non-vacuity --------------------------------------------------------------------------------- *)
 Example ex_reduce_step : det 3 (reduce_P3 4 (vl [2; -4; 0]) 0) = 4 * 4 * 2.
 Proof. reflexivity. Qed.
@@ -183,3 +215,5 @@ Example ex_reduce_notprimitive : reduce_diag 3 (ml [[2;0;0];[0;1;0];[0;0;1]]) [1
 Proof. reflexivity. Qed.
 Example ex_orient : det 2 (mm 2 (ml [[1;0];[0;1]]) (orient 2 (ml [[1;0];[0;1]]) (ml [[0;1];[1;0]]))) = 1.
 Proof. reflexivity. Qed.
+Example ex_reduced : reducedb 3 (ml [[2;-1;0];[-1;2;0];[0;0;5]]) = true /\ reducedb 3 (ml [[2;2;0];[2;4;0];[0;0;5]]) = false.
+Proof. split; reflexivity. Qed.
